@@ -322,6 +322,34 @@ def error_constants(run):
         run.traces_validated += 1
 
 
+def repeated_in_one_formula(run):
+    """A nest X used twice in ONE formula with a different conditional between the two uses: both uses are the value of X
+    ("in any position inside a larger expression"). X ranges over a sample of the enumerated nests; the formula is
+    IFERROR(X&"","e") & "/" & IFS(D1>2,"hi",TRUE,"lo") & "/" & IFERROR(X&"","e"), compared with IFERROR(X&"","e") alone."""
+    rng = random.Random(run.seed + 1313)
+    nests = []
+    while len(nests) < (40 if run.quick else 400):
+        a = random_ast(rng, 2)
+        if a['t'] in ('ifs', 'if', 'iferror') and depth(a) <= 2:
+            nests.append(text(a))
+    forms = []
+    for x in nests:
+        one = f'IFERROR({x}&"","e")'
+        forms += [f'={one}', f'={one}&"/"&IFS(D1>2,"hi",TRUE,"lo")&"/"&{one}', f'=IFS(D1>2,"hi",TRUE,"lo")&"/"&{one}&"/"&IFS(D1>2,"hi",TRUE,"lo")']
+    p = repo.Probe(forms, CONSTS, timeout=120)
+    for env in ENVS[::2]:
+        res = p.eval(env_overrides(env))
+        mid = 'hi' if env[2] else 'lo'
+        for j, x in enumerate(nests):
+            one, both, around = res[3 * j], res[3 * j + 1], res[3 * j + 2]
+            ok = one[0] == 'val' and both[0] == 'val' and around[0] == 'val' and both[1] == f'{one[1]}/{mid}/{one[1]}' and around[1] == f'{mid}/{one[1]}/{mid}'
+            run.judge({'in': {'formula': forms[3 * j + 1], 'env': list(env), 'ast': {'t': 'repeat'}, 'emb': 'repeat'}, 'ideal': f'{one[1]}/{mid}/{one[1]}' if one[0] == 'val' else '?',
+                       'obs': str(both[1])[:80], 'kind': 'repeated'}, ok,
+                      clause=f'{forms[3 * j + 1]} with conditions {list(env)} = {both[1]!r} (the nest alone gives {one[1]!r}; the conditional between gives {mid!r}); reversed roles: {around[1]!r}',
+                      part='repeated')
+            run.traces_validated += 1
+
+
 def check(run):
     run.rule = ('nests of IF/3, IF/2, IFS (1-2 pairs), IFERROR over leaves {7, 9, failing expression, #N/A expression} and 3 condition kinds enumerated by TLC '
                 '(depth <= 1 complete; depth 2 with one nested child), each valued under all 8 truth assignments, bare and embedded (T+1, 1+T, -T, T%, '
@@ -332,10 +360,14 @@ def check(run):
     gen(run)
     error_constants(run)
     trace(run)
+    repeated_in_one_formula(run)
 
 
 def replay(run, case):
     i = case['in']
+    if case.get('kind') == 'repeated':
+        repeated_in_one_formula(run)
+        return
     if case.get('kind') == 'error_constant':
         error_constants(run)
         return
